@@ -13,9 +13,17 @@ structure St where
   queues : List Nat := []
   sys : Sys := {}
   hist : List SysOp := []
+  dflt : Defaults := { schedName := 0, mainQueue := 0, noGroup := 0 }
+  v0 : List (Nat × Bool) := []                -- configuration format of each hook
+  kubes : List (Nat × List KubeDecl) := []    -- declared kubernetes bindings per hook
+  decls : List (Nat × List (Nat × Decl)) := [] -- declared schedule entries per hook (with their model ids)
 
 def St.valid (st : St) (c : Nat) : Bool := (st.crontabs.lookup c).getD true
 def St.cfgFn (st : St) (h : Nat) : List Binding := (st.cfg.lookup h).getD []
+
+def St.isV0 (st : St) (h : Nat) : Bool := (st.v0.lookup h).getD false
+def St.kubesOf (st : St) (h : Nat) : List KubeDecl := (st.kubes.lookup h).getD []
+def St.declsOf (st : St) (h : Nat) : List (Nat × Decl) := (st.decls.lookup h).getD []
 
 def insertSorted (x : String) : List String → List String
   | [] => [x]
@@ -51,6 +59,28 @@ def parseTask (s : String) : Option Task :=
     some { hook := ← h.toNat?, binding := ← b.toNat?, group := ← g.toNat?, allowFailure := ← parseBool? af,
            ctxBinding := ← cb.toNat?, ctxIncludes := ← parseIncl ci, ctxGroup := ← cg.toNat?, queue := ← q.toNat? }
   | _ => none
+
+def parseOpt (s : String) : Option (Option Nat) :=
+  if s == "_" then some none else s.toNat?.map some
+
+def showBinding (b : Binding) : String :=
+  s!"{b.name}:{b.crontab}:{showIncl b.includes}:{showBool b.allowFailure}:{b.queue}:{b.group}"
+
+def parseLoaded (id : Nat) (s : String) : Option Binding :=
+  match s.splitOn ":" with
+  | [n, c, inc, af, q, g] => do
+    some { id := id, name := ← n.toNat?, crontab := ← c.toNat?, includes := ← parseIncl inc,
+           allowFailure := ← parseBool? af, queue := ← q.toNat?, group := ← g.toNat? }
+  | _ => none
+
+/-- The property's "that binding's name, group, allowFailure, snapshot list, queue" on what the loader
+handed to the controller: the loaded binding is the one the hook declared (`Spec.declaredAs`). -/
+def oracleLoaded (st : St) (h id : Nat) (got : Binding) : String :=
+  match (st.declsOf h).lookup id with
+  | none => "false no-such-declaration"
+  | some d =>
+    if Spec.declaredAs st.dflt (st.isV0 h) (st.kubesOf h) id d got then "true"
+    else s!"false declared name={d.name.getD st.dflt.schedName} queue={if st.isV0 h then st.dflt.mainQueue else d.queue.getD st.dflt.mainQueue} group={if st.isV0 h then st.dflt.noGroup else d.group} allowFailure={showBool d.allowFailure} includes={showIncl (if st.isV0 h then [] else d.includes)}+group={showIncl (if st.isV0 h then [] else Spec.groupNames st.dflt (st.kubesOf h) d.group)}"
 
 def parseCrontabDecl (s : String) : Option (Nat × Bool) :=
   match s.splitOn ":" with
@@ -121,6 +151,51 @@ def step (st : St) (toks : List String) : St × String :=
     match h.toNat? with
     | some h => ({ st with hooks := st.hooks ++ [h], cfg := st.cfg ++ [(h, [])] }, "ok")
     | none => (st, "bad-op")
+  | ["defaults", n, q, g] =>
+    match n.toNat?, q.toNat?, g.toNat? with
+    | some n, some q, some g => ({ st with dflt := { schedName := n, mainQueue := q, noGroup := g } }, "ok")
+    | _, _, _ => (st, "bad-op")
+  | ["hook", h, ver] =>
+    match h.toNat?, (if ver == "v0" then some true else if ver == "v1" then some false else none) with
+    | some h, some v0 =>
+      ({ st with hooks := st.hooks ++ [h], cfg := st.cfg ++ [(h, [])], v0 := st.v0 ++ [(h, v0)],
+                 kubes := st.kubes ++ [(h, [])], decls := st.decls ++ [(h, [])] }, "ok")
+    | _, _ => (st, "bad-op")
+  | ["kube", h, n, g] =>
+    match h.toNat?, n.toNat?, g.toNat? with
+    | some h, some n, some g =>
+      if (st.decls.lookup h).isNone then (st, "bad-op") else
+      ({ st with kubes := st.kubes.map (fun (h', ks) => if h' == h then (h', ks ++ [{ name := n, group := g }]) else (h', ks)) }, "ok")
+    | _, _, _ => (st, "bad-op")
+  | ["decl", h, id, name, c, inc, af, q, g] =>
+    -- one declared schedule entry: the model loads it (config_v0.go / config_v1.go) and shows the
+    -- effective binding; the model's configuration is what the hook DECLARED, loaded by the model
+    match h.toNat?, id.toNat?, parseOpt name, c.toNat?, parseIncl inc, parseBool? af, parseOpt q, g.toNat? with
+    | some h, some id, some name, some c, some inc, some af, some q, some g =>
+      if (st.decls.lookup h).isNone then (st, "bad-op") else
+      let d : Decl := { name := name, crontab := c, includes := inc, allowFailure := af, queue := q, group := g }
+      let ds := st.declsOf h ++ [(id, d)]
+      let bs := load st.dflt (st.isV0 h) (st.kubesOf h) ds
+      let st' := { st with decls := st.decls.map (fun (h', x) => if h' == h then (h', ds) else (h', x)),
+                           cfg := st.cfg.map (fun (h', x) => if h' == h then (h', bs) else (h', x)) }
+      (st', match bs.getLast? with | some b => showBinding b | none => "-")
+    | _, _, _, _, _, _, _, _ => (st, "bad-op")
+  | ["extra-bindings", h] =>
+    match h.toNat? with
+    | some _ => (st, "0")
+    | none => (st, "bad-op")
+  | ["oracle", "loaded", h, id, got] =>
+    match (kv? "h" [h]).bind String.toNat?, (kv? "id" [id]).bind String.toNat?, kv? "got" [got] with
+    | some h, some id, some g =>
+      match parseLoaded id g with
+      | some b => (st, oracleLoaded st h id b)
+      | none => (st, "bad-op")
+    | _, _, _ => (st, "bad-op")
+  | ["oracle", "ids", n, d] =>
+    -- binding ids identify bindings (the (crontab, id) pairs of the property are per binding)
+    match (kv? "bindings" [n]).bind String.toNat?, (kv? "distinct" [d]).bind String.toNat? with
+    | some n, some d => (st, if n == d then "true" else s!"false bindings={n} distinct-ids={d}")
+    | _, _ => (st, "bad-op")
   | ["queue", q] =>
     match q.toNat? with
     | some q => ({ st with queues := st.queues ++ [q] }, "ok")
